@@ -4,6 +4,7 @@
 //! Record  C S <P|U> <ops>     ops: n<x> new  c<x>.<y> let y = x.clone()  a<x>.<v> x.add(v)  r<x> read  d<x> drop
 //! Result  I <out per op, comma separated>   out: -  |  <v1.v2...> (read)  |  e (read of an empty value)  |  P (panic)
 //! Record  C A <function group>        Result  I ok | PANIC <argument rendering>
+//! Record  C V <function> <args...>    Result  I <canonical result of the call>  (harness/src/valuev.rs; model: coq/Codec/ValueApi.v)
 use rustun_verif_harness::*;
 use std::collections::HashMap;
 use stun_rs::attributes::stun::*;
@@ -159,6 +160,7 @@ fn main() {
             let f: Vec<&str> = l.split(' ').collect();
             if f[0] == "C" && f[1] == "S" { run_script(&mut out, f[2], &f[3].split(',').map(|s| s.to_string()).collect::<Vec<_>>()) }
             else if f[0] == "C" && f[1] == "A" { api_sweeps(&mut out) }
+            else if f[0] == "C" && f[1] == "V" { valuev::run_v(&mut out, &f[2..]) }
         }
         out.finish();
         return;
@@ -173,6 +175,16 @@ fn main() {
     if args.shard == 0 {
         api_sweeps(&mut out);
     }
-    out.note(&format!("suite=valueapi scripts={}", mine));
+    // result records `C V` (harness/src/valuev.rs): the same list in every shard (its generator does not depend on the
+    // shard), each shard runs every shards-th record
+    let mut vrng = Rng::new(args.seed.wrapping_mul(0x1000_0000_01B3) ^ 0xC19F);
+    let mut nv = 0u64;
+    for (i, r) in valuev::gen_v(&mut vrng, args.thorough).iter().enumerate() {
+        if i as u64 % args.shards == args.shard {
+            valuev::run_v(&mut out, &r.split(' ').collect::<Vec<_>>());
+            nv += 1;
+        }
+    }
+    out.note(&format!("suite=valueapi scripts={} value-records={}", mine, nv));
     out.finish();
 }
